@@ -156,6 +156,59 @@ def _through_from_string(ctx, name, bench, cons, objs, expected, line, m):
         ctx.disagree(stream + ":simplify+validate", line, got2, exp2, True, d, spec=exp2)
 
 
+def search(ctx):
+    """a tie is broken and the sweep found nothing.  If the table of comparators changed, the texts it newly admits are
+    written into vers strings in the place of the comparator whose operator they name (the regenerated table says which):
+    `from_string(text, validate=True)` must accept exactly the lists the specification accepts, and every accepted one can
+    be tested for membership."""
+    from univers.version_range import VersionRange
+    new = [(t, n) for t, n in common.new_comparator_keys() if n in B.CMPRS and t and not any(ch in t for ch in "|/: ")]
+    if not new:
+        return
+    for name in ("semver", "pypi", "deb", "maven"):
+        if S.rclass(name) is None:
+            continue
+        rng = ctx.rng("c07-search", name)
+        bench = B.Bench(name, rng, size=12, need_hash=False)
+        if not bench.ok(9):
+            continue
+        stream = "search-new-comparators:" + name
+        jobs = []
+        for _ in range(250 if ctx.thorough else 120):
+            k = rng.choice([1, 2, 2, 3, 3, 4])
+            ranks = sorted(rng.sample(range(1, 9), k))
+            kt, kn = rng.choice(new)
+            cons = [(rng.choice(B.CMPRS), r) for r in ranks]
+            i = rng.randrange(k)
+            cons[i] = (kn, cons[i][1])
+            jobs.append((cons, i, kt))
+        answers = common.run_model(["validate %s" % B.cons_line(c) for c, _i, _kt in jobs])
+        for (cons, i, kt), a in zip(jobs, answers):
+            m = bench.mapping(10, rng)
+            texts = {r: str(m[r][1]) for r in range(10)}
+            if any((not t) or (not t.isascii()) or any(ch in t for ch in "|\\'\" \t\n") or t[0] in "<>=!*vV" for t in texts.values()):
+                continue
+            items = [((kt if j == i else (B.TXT[c] if c != "eq" else "")) + texts[r]) for j, (c, r) in enumerate(cons)]
+            text = "vers:%s/%s" % (S.rclass(name).scheme, "|".join(items))
+            expected = a.split(" ")[0]
+            got = B.res_bool(lambda: VersionRange.from_string(text, validate=True) is not None)
+            ctx.count(stream, key=text, nontrivial=True, branch=expected)
+            rep = {"scheme": name, "text": text, "new_comparator": kt, "names_the_operator_of": B.TXT[cons[i][0]],
+                   "python": "from univers.version_range import VersionRange as R; print(R.from_string(%r, validate=True))" % text}
+            if got != expected:
+                rep["clause"] = "from_string(validate=True) %s; the specification of validation says %s about this list" % (got, expected)
+                ctx.disagree(stream, text, got, expected, True, rep, spec=expected)
+                continue
+            if got == "ok:true":
+                r = VersionRange.from_string(text, validate=True)
+                for q in range(10):
+                    mem = B.res_bool(lambda: m[q][1] in r)
+                    if not mem.startswith("ok:"):
+                        rep.update({"version": texts[q], "clause": "an accepted list cannot be tested for membership: %s" % mem})
+                        ctx.disagree(stream, text + " @" + texts[q], mem, "an answer", True, rep, spec="an answer")
+                        break
+
+
 SHARED_TEXTS = ["1.0.0", "1.0.0-alpha", "1.0", "1.0.0-1", "1.0.0a", "1.0.0.1", "2.0.0", "1.0.0+1", "1.0.0~rc1", "1.0.0_p1",
                 "1.0.0-beta", "0.9", "1.0.0-rc1", "1.0.1"]
 
